@@ -41,7 +41,7 @@ func curveOf(name string) (elliptic.Curve, cose.Algorithm) {
 
 func classOrAlg(alg cose.Algorithm, err error) string {
 	if err != nil {
-		return errClass(err)
+		return "err"
 	}
 	return "ok:" + strconv.FormatInt(int64(alg), 10)
 }
@@ -57,7 +57,7 @@ func opKeyUse(a []string) string {
 	sb.WriteString("dec=ok " + dumpKey(&k))
 	before := dumpKey(&k)
 	pub, err := k.PublicKey()
-	sb.WriteString(" pub=" + errClass(err))
+	sb.WriteString(" pub=" + plainErr(err))
 	oc := "-"
 	if ek, ok := pub.(*ecdsa.PublicKey); ok && err == nil {
 		oc = "f"
@@ -66,18 +66,18 @@ func opKeyUse(a []string) string {
 		}
 	}
 	_, err = k.PrivateKey()
-	sb.WriteString(" priv=" + errClass(err))
+	sb.WriteString(" priv=" + plainErr(err))
 	s, err := k.Signer()
 	if err == nil {
 		sb.WriteString(" signer=ok:" + strconv.FormatInt(int64(s.Algorithm()), 10))
 	} else {
-		sb.WriteString(" signer=" + errClass(err))
+		sb.WriteString(" signer=" + plainErr(err))
 	}
 	v, err := k.Verifier()
 	if err == nil {
 		sb.WriteString(" verifier=ok:" + strconv.FormatInt(int64(v.Algorithm()), 10))
 	} else {
-		sb.WriteString(" verifier=" + errClass(err))
+		sb.WriteString(" verifier=" + plainErr(err))
 	}
 	sb.WriteString(" oc=" + oc)
 	alg, err := k.AlgorithmOrDefault()
